@@ -297,8 +297,14 @@ func encodeDumpBuffer(c *core.Ctx, fn *core.Fn) {
 	for _, p := range parts {
 		var x ast.Expr
 		if p.Fn.Name() == "EncodeDumpFooter" {
-			if sel, ok := ast.Unparen(p.Call.Fun).(*ast.SelectorExpr); ok {
-				x = sel.X
+			switch fun := ast.Unparen(p.Call.Fun).(type) {
+			case *ast.SelectorExpr:
+				x = fun.X
+			case *ast.Ident:
+				// the method value `enc.EncodeDumpFooter` held in a local
+				if cands, ok := r.funcCands(p.Site, fun, 0); ok && len(cands) == 1 {
+					x = cands[0].recv
+				}
 			}
 		} else if len(p.Call.Args) == 1 {
 			x = p.Call.Args[0]
